@@ -632,6 +632,32 @@ def callable_kinds_probe(ctx):
               ("symeig", lambda: symeig(xt.LinearOperator.m(torch.diag(torch.tensor([1.0, 2.0], dtype=DT)), is_hermitian=True), 1,
                                         method=functools.partial(lambda A, neig, mode, M=None, **kw: (torch.tensor([1.0], dtype=DT), torch.tensor([[1.0], [0.0]], dtype=DT))))[0],
                lambda r: abs(float(r) - 1.0) < 1e-12)]
+    # the thin wrappers lsymeig / usymeig hand the method (and its options) on to symeig (round-4 seed C18/12: usymeig dropped it)
+    from xitorch.linalg import lsymeig, usymeig
+    whit = []
+
+    def eigcall(A, neig, mode, M=None, **kw):
+        whit.append((mode, dict(kw)))
+        e_, v_ = torch.linalg.eigh(A.fullmatrix())
+        return (e_[:neig], v_[:, :neig]) if mode == "lowest" else (e_[-neig:], v_[:, -neig:])
+    Sd = xt.LinearOperator.m(torch.diag(torch.tensor([1.0, 2.0, 4.0], dtype=DT)), is_hermitian=True)
+    for wname, wfn, want_e in (("lsymeig", lsymeig, 1.0), ("usymeig", usymeig, 4.0)):
+        del whit[:]
+        try:
+            e_ = wfn(Sd, 1, method=eigcall, tagopt=5)[0]
+            ctx.count(("wrapper-forwards-method", wname), nontrivial=True)
+            if len(whit) != 1 or whit[0][1] != {"tagopt": 5} or abs(float(e_) - want_e) > 1e-12:
+                ctx.fail("oracle", "dispatch:%s:method-not-forwarded" % wname, {"method": "<callable>", "options": {"tagopt": 5}}, {"calls": whit[:2], "value": float(e_)},
+                         "the callable is called once with the caller's options")
+        except Exception as e:
+            ctx.fail("oracle", "dispatch:%s:callable:exception" % wname, {}, repr(e)[:200], "the callable runs")
+        try:
+            wfn(Sd, 1, method="davidsn")
+            ctx.fail("oracle", "dispatch:%s:unknown-accepted" % wname, {"method": "davidsn"}, "no error", "an unknown name is rejected")
+        except RuntimeError:
+            pass
+        except Exception as e:
+            ctx.fail("oracle", "dispatch:%s:unknown-name:other-exception" % wname, {"method": "davidsn"}, repr(e)[:200], "RuntimeError")
     for fnl, call, ok in others:
         try:
             r = call()
